@@ -7,6 +7,7 @@ package main
 import (
 	"bytes"
 	"encoding/json"
+	"errors"
 	"fmt"
 	avronull "github.com/philpearl/avro/null"
 	avrotime "github.com/philpearl/avro/time"
@@ -1020,6 +1021,8 @@ func c20Worker(arg json.RawMessage) (any, error) {
 			out = append(out, []c20ContRes{{Container: "anon-check", SchemaErr: c20EnumCheck()}})
 		case "unionhist":
 			out = append(out, []c20ContRes{{Container: "anon-check", SchemaErr: c20UnionHistoryCheck()}})
+		case "strictrereg":
+			out = append(out, []c20ContRes{{Container: "anon-check", SchemaErr: c20StrictReRegistration()}})
 		default:
 			return nil, fmt.Errorf("unknown step %q", st.Op)
 		}
@@ -1272,7 +1275,7 @@ func (p *c20Parent) scenario(label string, steps []c20Step, noOracle bool) {
 		}
 		conts := results[ri]
 		ri++
-		if st.Op == "anon" || st.Op == "relib" || st.Op == "enumreg" || st.Op == "unionhist" {
+		if st.Op == "anon" || st.Op == "relib" || st.Op == "enumreg" || st.Op == "unionhist" || st.Op == "strictrereg" {
 			r.Count("anon-registration")
 			if len(conts) == 1 && conts[0].SchemaErr != "" {
 				p.failOnce(-1, "registration-of-unnamed-type", conts[0].SchemaErr, map[string]any{"scenario": label})
@@ -1660,6 +1663,8 @@ func runC20(r *Run) {
 	// behind omitempty, behind a pointer and as an element, in several struct types one after the
 	// other: what generation emits for one struct does not depend on what was generated before
 	p.scenario("registered-union-history", []c20Step{{Op: "unionhist"}}, true)
+	// the latest registration wins also when it REFUSES what the one it replaced accepted
+	p.scenario("stricter-re-registration", []c20Step{{Op: "strictrereg"}}, true)
 	// registration only after a first codec was built without any
 	p.scenario("first-after-build", []c20Step{
 		{Op: "run", Containers: late, Seed: seed, N: nv, Hold: true},
@@ -2054,6 +2059,100 @@ func c20UnionHistoryCheck() string {
 		if got := schemaJSON(s1); got != first {
 			return fmt.Sprintf("the schema value returned by SchemaForType(plain) read %s when it was returned and reads %s after schemas for two other struct types were generated", first, got)
 		}
+	}
+	return ""
+}
+
+// c20StrictReRegistration (child): builder A (accepts a long schema) is registered for a type,
+// then builder B (accepts a string schema only).  A codec for a struct of that type under a long
+// schema must now be refused with B's error - the replaced builder is gone, it is not a
+// fall-back - and under a string schema B serves it.  In the other order A is the latest and a
+// long schema builds.
+type c20Strict int64
+type c20Strict2 int64
+
+type c20StrictCodec struct{ tag byte }
+
+func (c c20StrictCodec) Read(r *avro.ReadBuf, p unsafe.Pointer) error {
+	if c.tag == 'A' {
+		v, err := r.Varint()
+		*(*int64)(p) = v
+		return err
+	}
+	l, err := r.Varint()
+	if err != nil {
+		return err
+	}
+	b, err := r.Next(int(l))
+	*(*int64)(p) = int64(len(b)) + 1000
+	return err
+}
+func (c c20StrictCodec) Skip(r *avro.ReadBuf) error {
+	var x int64
+	return c.Read(r, unsafe.Pointer(&x))
+}
+func (c c20StrictCodec) New(r *avro.ReadBuf) unsafe.Pointer { return r.Alloc(reflect.TypeOf(int64(0))) }
+func (c c20StrictCodec) Omit(p unsafe.Pointer) bool         { return false }
+func (c c20StrictCodec) Write(w *avro.WriteBuf, p unsafe.Pointer) {
+	w.Varint(*(*int64)(p))
+}
+
+func c20StrictReRegistration() string {
+	errB := errors.New("builder B takes a string schema only")
+	builderA := func(s avro.Schema, t reflect.Type, omit bool) (avro.Codec, error) {
+		if s.Type != "long" {
+			return nil, errors.New("builder A takes a long schema only")
+		}
+		return c20StrictCodec{'A'}, nil
+	}
+	builderB := func(s avro.Schema, t reflect.Type, omit bool) (avro.Codec, error) {
+		if s.Type != "string" {
+			return nil, errB
+		}
+		return c20StrictCodec{'B'}, nil
+	}
+	type h1 struct {
+		F c20Strict  `json:"f"`
+		P *c20Strict `json:"p"`
+	}
+	type h2 struct {
+		F c20Strict2 `json:"f"`
+	}
+	long := `{"type":"record","name":"r","fields":[{"name":"f","type":"long"},{"name":"p","type":["null","long"]}]}`
+	str := `{"type":"record","name":"r","fields":[{"name":"f","type":"string"},{"name":"p","type":["null","string"]}]}`
+	long1 := `{"type":"record","name":"r","fields":[{"name":"f","type":"long"}]}`
+	build := func(schema string, v any) (avro.Codec, error) {
+		s, err := avro.SchemaFromString(schema)
+		if err != nil {
+			return nil, err
+		}
+		return s.Codec(v)
+	}
+	avro.Register(reflect.TypeOf(c20Strict(0)), builderA)
+	if _, err := build(long, h1{}); err != nil {
+		return "with builder A registered a long schema is refused: " + err.Error()
+	}
+	avro.Register(reflect.TypeOf(c20Strict(0)), builderB)
+	if c, err := build(long, h1{}); err == nil {
+		var v h1
+		_ = c.Read(avro.NewReadBuf([]byte{0x54, 0}), unsafe.Pointer(&v))
+		return fmt.Sprintf("builder B (string schemas only) was registered after builder A (long schemas only); a codec under a long schema is built all the same and decodes 0x54 to %d: the replaced builder still serves the type", v.F)
+	} else if !errors.Is(err, errB) {
+		return "after the re-registration a long schema is refused, but not with the latest builder's own error: " + err.Error()
+	}
+	c, err := build(str, h1{})
+	if err != nil {
+		return "the latest builder accepts string schemas, the codec is refused: " + err.Error()
+	}
+	var v h1
+	if err := c.Read(avro.NewReadBuf([]byte{4, 'a', 'b', 2, 2, 'z'}), unsafe.Pointer(&v)); err != nil || v.F != 1002 || v.P == nil || *v.P != 1001 {
+		return fmt.Sprintf("under a string schema the latest builder's codec must serve field and pointer: got %+v (error %v)", v, err)
+	}
+	// the other order
+	avro.Register(reflect.TypeOf(c20Strict2(0)), builderB)
+	avro.Register(reflect.TypeOf(c20Strict2(0)), builderA)
+	if _, err := build(long1, h2{}); err != nil {
+		return "builder A registered last: a long schema is refused: " + err.Error()
 	}
 	return ""
 }
